@@ -55,6 +55,12 @@ def build(kind, binary="core"):
     if kind == "fiber":
         files = sorted(glob.glob(os.path.join(ROOT, "drivers", "*.[ch]")))
         files = [f for f in files if not os.path.basename(f).startswith("thr_")]
+        exts = os.environ.get("FIBER_EXTS")
+        if exts:
+            keep = {"ext_" + e + ".c" for e in exts.split()}
+            files = [f for f in files if not os.path.basename(f).startswith("ext_") or
+                     os.path.basename(f) in keep or os.path.basename(f) == "ext_all.c"]
+            h.update(exts.encode())
         tag = "fiber"
     else:
         files = [os.path.join(ROOT, "drivers", f) for f in (f"thr_{binary}.c", "thr_common.h", "thr_stubs.c")]
